@@ -109,6 +109,7 @@ func c07case(g *Gen, local string, ops []string, cls []string) {
 func c07(g *Gen) {
 	validateUnicodeTables()
 	defer c07options(g)
+	defer c07unicode(g)
 	// exhaustive: all sequences of length <= 3 over a 12-path alphabet, two output packages
 	for _, local := range []string{"", "local/out"} {
 		for _, a := range c07Small {
@@ -305,5 +306,57 @@ func c07options(g *Gen) {
 		sort.Strings(cl)
 		g.Emit("C07.ops", list(num(c07ver), atom(local), list(opsS...)), list(dumps...), cl...)
 		g.Emit("C07.options!", list(atom(local), atoms(desc), atom(strings.Join(problems, "; "))), boolS(len(problems) == 0), cl...)
+	}
+}
+
+// c07unicode: import paths with non-ASCII letters and digits (the Coq model's strings are ASCII; these
+// sequences are checked against C07's clauses directly): every alias a legal non-keyword identifier
+// (go/token), one per package, stable, inverse lookups, import lines sorted one per package.
+func c07unicode(g *Gen) {
+	paths := []string{"docs/\u0663d", "api/\u0968fa", "x/\u00e9toile", "y/\u65e5\u672c", "\u0663", "z/\u0663", "q/d\u0663", "w/\u00e9toile", "api/2fa", "k/\u0968fa"}
+	n := g.N(150, 3000)
+	for i := 0; i < n; i++ {
+		local := g.Pick([]string{"", "local/out", "x/\u00e9toile"})
+		tr := generator.NewImportTrackerForPackage(local)
+		first := map[string]string{}
+		var keys, problems, desc []string
+		for step, k := 0, 2+g.R.Intn(6); step < k && len(problems) == 0; step++ {
+			pkg := paths[(i+step*3+g.R.Intn(3))%len(paths)]
+			tr.AddSymbol(types.Name{Package: pkg, Name: "T"})
+			desc = append(desc, pkg)
+			if pkg != local {
+				if _, ok := first[pkg]; !ok {
+					first[pkg] = tr.LocalNameOf(pkg)
+					keys = append(keys, pkg)
+				}
+			}
+			seen := map[string]string{}
+			var want []string
+			sorted := append([]string{}, keys...)
+			sort.Strings(sorted)
+			for _, kk := range sorted {
+				a := tr.LocalNameOf(kk)
+				switch {
+				case a == "":
+					problems = append(problems, "no local name for "+kk)
+				case a != first[kk]:
+					problems = append(problems, fmt.Sprintf("the local name of %s changed from %q to %q", kk, first[kk], a))
+				case !token.IsIdentifier(a) || token.IsKeyword(a):
+					problems = append(problems, fmt.Sprintf("local name %q of %s is not a legal non-keyword identifier", a, kk))
+				}
+				if other, dup := seen[a]; dup {
+					problems = append(problems, fmt.Sprintf("%s and %s share the local name %q", other, kk, a))
+				}
+				seen[a] = kk
+				if pth, ok := tr.PathOf(a); !ok || pth != kk {
+					problems = append(problems, fmt.Sprintf("PathOf(LocalNameOf(%q)) = %q, %v", kk, pth, ok))
+				}
+				want = append(want, a+" \""+kk+"\"")
+			}
+			if got := tr.ImportLines(); strings.Join(got, "\n") != strings.Join(want, "\n") {
+				problems = append(problems, fmt.Sprintf("ImportLines = %q, want %q", got, want))
+			}
+		}
+		g.Emit("C07.unicode!", list(atom(local), atoms(desc), atom(strings.Join(problems, "; "))), boolS(len(problems) == 0), "non-ascii-paths")
 	}
 }
